@@ -37,3 +37,16 @@ Theorem C05_source_update_version :
   V2.AuthorizationResponseClaims_updateVersion = [GoSetZ "ar_AuthorizationResponse_GenericFields_Version" lib_version].
 Proof. exact src_update_version. Qed.
 Print Assumptions C05_source_update_version.
+
+(* the unknown functions these consult are exactly the standard library's: the unpadded base64url codec and json.Marshal
+   (another function in their place - a padded codec, a pooled or caching marshaller - keeps the shape of the
+   translation and changes these lists) *)
+Theorem C05_source_codec_consults :
+  V2.decodeString_consults = ["go_base64_RawURLEncoding_DecodeString"]%list /\
+  V2.encodeToString_consults = ["go_base64_RawURLEncoding_EncodeToString"]%list /\
+  V2.serialize_consults = ["go_base64_RawURLEncoding_EncodeToString"; "go_json_Marshal__v"]%list /\
+  V1.decodeString_consults = ["go_base64_RawURLEncoding_DecodeString"]%list /\
+  V1.encodeToString_consults = ["go_base64_RawURLEncoding_EncodeToString"]%list /\
+  V1.serialize_consults = ["go_base64_RawURLEncoding_EncodeToString"; "go_json_Marshal__v"]%list.
+Proof. repeat split; reflexivity. Qed.
+Print Assumptions C05_source_codec_consults.
